@@ -616,6 +616,9 @@ traversal:
 			p:         p,
 			transform: ft,
 		})
+		// A call through c that is in flight when p starts to resolve waits
+		// for p to be resolved, so resolve must not wait for it in turn.
+		pr.lazyShutdown = true
 		if p.clients == nil {
 			p.clients = make(map[clientPath][]clientAndPromise)
 		}
